@@ -132,7 +132,7 @@ func c12Sig(kind string, r c12Rule, peer string, xff bool) string {
 
 func TestVerifC12Rules(t *testing.T) {
 	L := ev.Begin("C12", "c12-rules", "exploration",
-		"every allow/deny list of 1..2 items from 13 items (v4/v6 blocks and single addresses, case/space variants, /33, /129, bad address, empty, unknown type, missing type, double slash) x 10 peers (incl. zone-scoped and v4-mapped v6) x X-Forwarded-For in {none, inside, outside, inside+outside, garbage, peer itself}, through NewTable opts -> Target.AccessDeniedHTTP and AccessDeniedTCP; also allow+deny together. oracle (netip): allow admits only inside the well-formed blocks, deny rejects inside them, a malformed item never widens. non-trivial = rule with >=1 well-formed block and a peer inside it, or a malformed item")
+		"every allow/deny list of 1..2 items from 13 items (v4/v6 blocks and single addresses, case/space variants, /33, /129, bad address, empty, unknown type, missing type, double slash) x 10 peers (incl. zone-scoped and v4-mapped v6) x X-Forwarded-For in {none, inside, outside, inside+outside, garbage, peer itself, chains with unparsable elements before/between addresses}, through NewTable opts -> Target.AccessDeniedHTTP and AccessDeniedTCP; also allow+deny together. oracle (netip): allow admits only inside the well-formed blocks, deny rejects inside them, a malformed item never widens. non-trivial = rule with >=1 well-formed block and a peer inside it, or a malformed item")
 	var rules []c12Rule
 	for _, k := range []string{"allow", "deny"} {
 		for i, a := range c12Items {
@@ -144,7 +144,7 @@ func TestVerifC12Rules(t *testing.T) {
 			}
 		}
 	}
-	xffs := []string{"", "10.9.9.9", "172.16.0.1", "10.9.9.9, 172.16.0.1", "garbage", "@peer", " 10.9.9.9 ,, "}
+	xffs := []string{"", "10.9.9.9", "172.16.0.1", "10.9.9.9, 172.16.0.1", "garbage", "@peer", " 10.9.9.9 ,, ", "unknown, 172.16.0.1", "10.9.9.9:4711, 172.16.0.1", "garbage, 10.9.9.9", "unknown, 10.9.9.9, x, 172.16.0.1"}
 	for _, r := range rules {
 		opt := r.kind + "=" + strings.ReplaceAll(strings.Join(r.items, ","), " ", " ")
 		// spaces cannot be written inside opts "..." (fields are split on white space): use the
